@@ -17,6 +17,7 @@ use crate::parser::ast::stmt::FilterPattern;
 use crate::parser::ast::stmt::FilterStmt;
 use crate::parser::ast::stmt::Statement;
 use crate::parser::ast::*;
+use crate::scanner::token::Token;
 
 pub mod error;
 pub mod symtab;
@@ -49,14 +50,17 @@ struct LoopContext {
     begin: usize,
     // positions of 'break' instructions in the current loop
     break_positions: Vec<usize>,
+    // operands of enclosing expressions on the stack where the loop begins
+    operand_depth: usize,
 }
 
 impl LoopContext {
-    fn new(label: Option<String>, position: usize) -> Self {
+    fn new(label: Option<String>, position: usize, operand_depth: usize) -> Self {
         Self {
             label,
             begin: position,
             break_positions: Vec::new(),
+            operand_depth,
         }
     }
 }
@@ -71,6 +75,7 @@ struct CompilationScope {
     loop_stack: Vec<LoopContext>, // stack of 'loop' instructions
     scope_depth: usize,           // depth within the current scope
     is_filter: bool,              // scope of a filter statement, not of a function
+    operand_depth: usize,         // operands of enclosing expressions on the stack
 }
 
 pub struct Compiler {
@@ -418,10 +423,11 @@ impl Compiler {
                 // It also indicates that the compiler is compiling a loop
                 let loop_begin = self.get_curr_instructions().len();
                 // Push a new LoopLabel onto the loop stack.
+                let depth = self.scopes[self.scope_index].operand_depth;
                 let loop_label = if let Some(label) = stmt.label {
-                    LoopContext::new(Some(label.literal), loop_begin)
+                    LoopContext::new(Some(label.literal), loop_begin, depth)
                 } else {
-                    LoopContext::new(None, loop_begin)
+                    LoopContext::new(None, loop_begin, depth)
                 };
                 self.scopes[self.scope_index].loop_stack.push(loop_label);
                 // Compile the body of the loop
@@ -442,10 +448,11 @@ impl Compiler {
                 // Record the position of the beginning of the loop so a 'Jump'
                 let loop_begin = self.get_curr_instructions().len();
                 // Push a new LoopLabel onto the loop stack.
+                let depth = self.scopes[self.scope_index].operand_depth;
                 let loop_label = if let Some(label) = stmt.label {
-                    LoopContext::new(Some(label.literal), loop_begin)
+                    LoopContext::new(Some(label.literal), loop_begin, depth)
                 } else {
-                    LoopContext::new(None, loop_begin)
+                    LoopContext::new(None, loop_begin, depth)
                 };
                 self.scopes[self.scope_index].loop_stack.push(loop_label);
 
@@ -478,6 +485,8 @@ impl Compiler {
                         stmt.token.line,
                     ));
                 } else {
+                    // Drop the operands of the expressions that are being left
+                    self.emit_operand_pops(&stmt.label, stmt.token.line);
                     // Placeholder instruction to jump to end of the loop
                     let pos = self.emit(Opcode::Jump, &[0xFFFF], stmt.token.line);
 
@@ -514,6 +523,8 @@ impl Compiler {
                         stmt.token.line,
                     ));
                 } else {
+                    // Drop the operands of the expressions that are being left
+                    self.emit_operand_pops(&stmt.label, stmt.token.line);
                     // Save the position of the 'break' instruction so it can be patched later
                     // Add the break position to the current inner most loop
                     if let Some(label) = stmt.label {
@@ -618,16 +629,16 @@ impl Compiler {
             }
             Expression::Array(arr) => {
                 let len = arr.elements.len();
-                for e in arr.elements {
-                    self.compile_expression(e)?;
+                for (i, e) in arr.elements.into_iter().enumerate() {
+                    self.compile_operand(e, i)?;
                 }
                 self.emit(Opcode::Array, &[len], arr.token.line);
             }
             Expression::Hash(map) => {
                 let len = map.pairs.len() * 2;
-                for (key, value) in map.pairs {
-                    self.compile_expression(key)?;
-                    self.compile_expression(value)?;
+                for (i, (key, value)) in map.pairs.into_iter().enumerate() {
+                    self.compile_operand(key, 2 * i)?;
+                    self.compile_operand(value, 2 * i + 1)?;
                 }
                 self.emit(Opcode::Map, &[len], map.token.line);
             }
@@ -642,12 +653,12 @@ impl Compiler {
                     "<" | "<=" => {
                         // In case of '<' or '<=', re order the operands to reuse the '>' or '>='
                         self.compile_expression(*binary.right)?;
-                        self.compile_expression(*binary.left)?;
+                        self.compile_operand(*binary.left, 1)?;
                         self.compile_infix_expr(&binary.operator, binary.token.line)?;
                     }
                     _ => {
                         self.compile_expression(*binary.left)?;
-                        self.compile_expression(*binary.right)?;
+                        self.compile_operand(*binary.right, 1)?;
                         self.compile_infix_expr(&binary.operator, binary.token.line)?;
                     }
                 }
@@ -698,7 +709,7 @@ impl Compiler {
                 }
                 // compile the expression on the right side of the assignment
                 self.compile_expression(*expr.right)?;
-                self.compile_expression(*expr.left)?;
+                self.compile_operand(*expr.left, 1)?;
             }
             Expression::Range(expr) => {
                 // Range expressions not to be used here
@@ -713,8 +724,8 @@ impl Compiler {
             Expression::Call(call) => {
                 self.compile_expression(*call.func)?;
                 let num_args = call.args.len();
-                for arg in call.args {
-                    self.compile_expression(arg)?;
+                for (i, arg) in call.args.into_iter().enumerate() {
+                    self.compile_operand(arg, i + 1)?;
                 }
                 // First operand to OpCall is the number of arguments
                 self.emit(Opcode::Call, &[num_args], call.token.line);
@@ -750,6 +761,36 @@ impl Compiler {
                 _ => false,
             },
             _ => false,
+        }
+    }
+
+    // Compile an operand that is evaluated while 'pending' operands of the
+    // same expression are already on the stack
+    fn compile_operand(&mut self, expr: Expression, pending: usize) -> Result<(), CompileError> {
+        let depth = self.scopes[self.scope_index].operand_depth;
+        self.scopes[self.scope_index].operand_depth = depth + pending;
+        let result = self.compile_expression(expr);
+        self.scopes[self.scope_index].operand_depth = depth;
+        result
+    }
+
+    // A 'break' or 'continue' inside an operand leaves the expressions that
+    // enclose it: pop the operands they have pushed since the loop began
+    fn emit_operand_pops(&mut self, label: &Option<Token>, line: usize) {
+        let scope = &self.scopes[self.scope_index];
+        let target = match label {
+            Some(label) => scope
+                .loop_stack
+                .iter()
+                .rev()
+                .find(|l| l.label.as_ref() == Some(&label.literal)),
+            None => scope.loop_stack.last(),
+        };
+        if let Some(target) = target {
+            let pending = scope.operand_depth.saturating_sub(target.operand_depth);
+            for _ in 0..pending {
+                self.emit(Opcode::Pop, &[0], line);
+            }
         }
     }
 
@@ -1096,7 +1137,7 @@ impl Compiler {
         // Compile the expression being indexed
         self.compile_expression(*expr.left)?;
         // Compile the index expression
-        self.compile_expression(*expr.index)?;
+        self.compile_operand(*expr.index, 1)?;
         // Emit the index operator
         match expr.context.access {
             AccessType::Get => {
@@ -1249,7 +1290,7 @@ impl Compiler {
         // Compile the expression whose property is being accessed
         self.compile_expression(*expr.left)?;
         // Compile the property expression
-        self.compile_expression(*expr.property)?;
+        self.compile_operand(*expr.property, 1)?;
         Ok(())
     }
 
